@@ -86,7 +86,7 @@ class C05(Property):
     min_nontrivial = 10
 
     def _plan(self, ctx: Ctx):
-        n, k = (300, 8) if ctx.tier == "thorough" else (45, 3)
+        n, k = (250, 8) if ctx.tier == "thorough" else (45, 3)
         if ctx.mode == "search":
             n, k = n, 16
         return n, k
